@@ -87,3 +87,18 @@ F26 = [
   "cut/paste of the anchor of a CSE array leaves the pasted cell unevaluated (#ERROR! shown); reload evaluates it", [], False),
 ]
 register("C26", "states", F26)
+
+def c27(ops, locale="en", language="en"): return {"locale":locale,"language":language,"ops":ops}
+F27 = [
+ ("cse-array-overlapped-by-array", c27([arrf(2,4,1,2,"=A1+0"), arrf(3,3,2,1,"=A1+0")]),
+  "set_user_array_formula accepts a range that overlaps an existing CSE array: the two array ranges overlap", ["c27-cse-arrays"], False),
+ ("cse-array-over-dynamic-spill", c27([inp(5,6,"={1,2;3,4}"), arrf(4,5,2,2,"=A1+0")]),
+  "a CSE array formula placed over part of a dynamic spill leaves spill cells whose anchor is no longer an array formula", ["c27-cse-arrays"], False),
+ ("insert-rows-orphans-cse-spill", c27([arrf(1,1,2,1,"=A1*A5"), {"InsertRows": {"s":0,"row":5,"n":2}}]),
+  "row/column insert/delete/move re-types the anchor of a CSE array as a plain formula; its spill cells keep naming it as anchor", ["c27-cse-arrays"], False),
+ ("move-rows-shrinks-cse-anchor", c27([arrf(3,1,1,2,"=SUM(A1:A1)"), {"MoveRows": {"s":0,"row":1,"n":1,"delta":1}}]),
+  "moving rows next to a CSE array leaves a spill cell outside its anchor's (shrunk) range", ["c27-cse-arrays"], False),
+ ("delete-sheet-leaves-scoped-name", c27([{"NewSheet": None} if False else "NewSheet", {"NameNew": {"name":"nm1","scope":1,"formula":"Sheet1!$A$1"}}, {"DeleteSheet": 1}]),
+  "delete_sheet leaves defined names scoped to the deleted sheet behind (their sheet id no longer exists)", [], True),
+]
+register("C27", "histories", F27)
